@@ -75,6 +75,10 @@ def inner_dicts(lk):
     return out
 
 
+def _rc(lst, i):
+    return sys.getrefcount(lst[i])
+
+
 class World:
     def __init__(self, flavour, site=None, action=None, audit=True):
         newworld()
@@ -162,22 +166,28 @@ class World:
         if self.audit:
             # Pin the containers the interrupted frame may be using so that a
             # stray write lands in live memory, then look at who owns them.
-            for d in inner_dicts(lk):
-                pins.append(d)
+            pins = inner_dicts(lk)
             if not hasattr(lk, '_verify_ro'):
                 for t in gc.get_referents(lk):
                     if type(t) is tuple and t and not isinstance(t[0], int):
                         pins.append(t)          # the _verify_ro snapshot
+                t = None
             else:
                 if isinstance(lk._verify_ro, (tuple, list)):
                     pins.append(lk._verify_ro)
+            pins.append({})      # control: held by the harness exactly like the others
         try:
             self.do_action(self.action)
         finally:
-            for p in pins:
-                rc = sys.getrefcount(p)       # pins list + loop variable + argument
-                snap = dict(p) if type(p) is dict else None
-                self.pinned.append((p, snap, rc))
+            if pins:
+                base = _rc(pins, len(pins) - 1)
+                i = 0
+                while i < len(pins) - 1:
+                    # owners other than the harness at the moment of the call-out
+                    owners = _rc(pins, i) - base
+                    snap = dict(pins[i]) if type(pins[i]) is dict else None
+                    self.pinned.append((pins[i], snap, owners))
+                    i += 1
 
     def do_action(self, a):
         reg = self.reg
@@ -345,13 +355,13 @@ def scenario(case, light=False):
     # must have had an owner other than the harness at that moment
     for p, snap, rc in w.pinned:
         if type(p) is dict:
-            if dict(p) != snap and rc <= 3:
+            if dict(p) != snap and rc <= 0:
                 return ('use-after-free:cache-dict-written-while-unowned',
-                        'refcount at the call-out = %d (harness only)' % rc,
+                        'owners other than the harness at the call-out: %d' % rc,
                         sorted(map(repr, set(p) - set(snap)))), True
-        elif site == 'generation' and rc <= 3 and action not in ('nop', 'gc', 'reenter-same', 'reenter-other', 'raise'):
+        elif site == 'generation' and rc <= 0 and action not in ('nop', 'gc', 'reenter-same', 'reenter-other', 'raise'):
             return ('use-after-free:verify-ro-read-while-unowned',
-                    'refcount at the call-out = %d (harness only)' % rc), True
+                    'owners other than the harness at the call-out: %d' % rc), True
     # no stale survivor: every entry point now gives the after-answer
     w.armed = False
     for e in ENTRIES:
@@ -409,7 +419,7 @@ def evaluate(arg):
                 v = leak_check(case)
         if v:
             viol.append(dict(sig='C11:inject:%s:%s' % (v[0], case[2].split(':')[0]),
-                             case=dict(kind='inject', case=case),
+                             case=dict(kind='inject', case=case, leak=(v[0] == 'leak')),
                              detail=dict(flavour=case[0], entry=case[1], site=case[2],
                                          action=case[3], warm=case[4], violation=v)))
         gc.collect()
@@ -449,20 +459,23 @@ class SchedWorld(World):
         kind, when = site.split(':')
         lk = self.reg._v_lookup
         if when == 'before':
-            pins = []
-            for d in inner_dicts(lk):
-                pins.append(d)
+            pins = inner_dicts(lk)
+            pins.append({})          # control
             snaps = []
-            for d in pins:
-                snaps.append(dict(d))
+            i = 0
+            while i < len(pins):
+                snaps.append(dict(pins[i]))
+                i += 1
             self.in_flight[tid] = (pins, snaps)
         else:
             pins, snaps = self.in_flight.pop(tid, ((), ()))
-            i = 0
-            for d in pins:
-                rc = sys.getrefcount(d)
-                self.audits.append((d, dict(d), rc))
-                i += 1
+            if pins:
+                base = _rc(pins, len(pins) - 1)
+                i = 0
+                while i < len(pins) - 1:
+                    owners = _rc(pins, i) - base
+                    self.audits.append((pins[i], dict(pins[i]), owners))
+                    i += 1
 
 
 def make_harness(flavour, mutator, entries):
@@ -533,9 +546,9 @@ def make_check(flavour, mutator, entries):
         # stray writes: a container that was unowned when the uncached call
         # returned but received an entry afterwards
         for d, snap, rc in w.audits:
-            if rc <= 3 and dict(d) != snap:
+            if rc <= 0 and dict(d) != snap:
                 return 'uaf', ('use-after-free:cache-dict-written-while-unowned',
-                               'refcount when the uncached call returned = %d' % rc)
+                               'owners other than the harness when the uncached call returned: %d' % rc)
         for e in ENTRIES:
             a = norm(w.call(e))
             if a != final[e]:
@@ -556,9 +569,12 @@ JOURNAL = [None]
 
 def explore_harness(arg):
     flavour, mutator, entries, bound, maxs = arg[:5]
-    shard = arg[5] if len(arg) > 5 else None
+    shard = None
+    mode = arg[5] if len(arg) > 5 else None      # None | 'root' | list of prefixes
     collect = arg[6] if len(arg) > 6 else False
     gc.disable()
+    import time as _time
+    _t0 = _time.time()
     jpath = os.path.join(os.environ.get('VERIF_WORK', '/verif/.work'), 'journal-%d' % os.getpid())
     os.makedirs(os.path.dirname(jpath), exist_ok=True)
 
@@ -567,13 +583,17 @@ def explore_harness(arg):
             f.write(repr((flavour, mutator, entries, list(prefix))))
     st = sched.explore(make_harness(flavour, mutator, entries), WATCH, bound,
                        make_check(flavour, mutator, entries), journal=journal,
-                       max_schedules=maxs, shard=shard, collect=collect)
+                       max_schedules=maxs, shard=shard, collect=collect,
+                       stack0=(mode if isinstance(mode, list) else
+                               mode[1] if isinstance(mode, tuple) else None),
+                       root_only=(mode == 'root' or isinstance(mode, tuple)))
     try:
         os.unlink(jpath)
     except OSError:
         pass
     gc.collect()
     st['pid'] = os.getpid()
+    st['secs'] = round(_time.time() - _t0, 2)
     return st
 
 
@@ -686,53 +706,76 @@ def run(ctx):
     collect = bool(ctx.opts.get('collect'))
 
     def plans_for(impl):
-        plans = []          # (flavour, mutator, entries, bound, cap, shard, collect)
+        plans = []          # (flavour, mutator, entries, bound, split?)
 
-        def add(flavour, mut, entries, bound, nshard=1):
-            for k in range(nshard):
-                plans.append((flavour, mut, entries, bound, None,
-                              (k, nshard) if nshard > 1 else None, collect))
+        def add(flavour, mut, entries, bound, split=False):
+            plans.append((flavour, mut, entries, bound, split))
         for flavour in ('adapter', 'verifying'):
             for mut in MUTATORS:
                 for e in SCHED_ENTRIES:
                     if quick:
                         add(flavour, mut, [e], 1)
                     else:
-                        add(flavour, mut, [e], 2, 6)
+                        add(flavour, mut, [e], 2, True)
             if quick:
-                if flavour == 'adapter' or impl == 'c':
-                    add(flavour, 'register', ['lookup'], 2, 12)
+                if flavour == 'adapter':
+                    add(flavour, 'register', ['lookup'], 2, True)
                 add(flavour, None, ['lookup', 'lookup'], 1)
                 add(flavour, None, ['lookupAll', 'subscriptions'], 1)
-                add(flavour, 'register', ['lookup', 'lookup'], 1, 4)
+                add(flavour, 'register', ['lookup', 'lookup'], 1, True)
             else:
-                add(flavour, 'register', ['lookup'], 3, 48)
-                add(flavour, 'unregister', ['lookupAll'], 3, 48)
-                add(flavour, None, ['lookup', 'lookup'], 2, 16)
-                add(flavour, None, ['lookupAll', 'subscriptions'], 2, 16)
-                add(flavour, 'register', ['lookup', 'lookup'], 2, 32)
-                add(flavour, 'unsubscribe', ['subscriptions', 'lookup1'], 2, 32)
-                add(flavour, 'rebase-interface', ['lookup', 'queryAdapter'], 2, 32)
+                add(flavour, 'register', ['lookup'], 3, True)
+                add(flavour, 'unregister', ['lookupAll'], 3, True)
+                add(flavour, None, ['lookup', 'lookup'], 2, True)
+                add(flavour, None, ['lookupAll', 'subscriptions'], 2, True)
+                add(flavour, 'register', ['lookup', 'lookup'], 2, True)
+                add(flavour, 'unsubscribe', ['subscriptions', 'lookup1'], 2, True)
+                add(flavour, 'rebase-interface', ['lookup', 'queryAdapter'], 2, True)
         return plans
     nsched = 0
     outcomes = {}
     for impl in ('c', 'py'):
         plans = plans_for(impl)
-        res = ctx.pool(impl, capture_stderr=True).map('c11', 'explore_harness', plans)
+        pool = ctx.pool(impl, capture_stderr=True)
+        # phase 1: unsplit harnesses run whole; split ones run their default
+        # schedule and hand back the first-level alternatives
+        tasks = [(p[0], p[1], p[2], p[3], None, 'root' if p[4] else None, collect) for p in plans]
+        res = pool.map('c11', 'explore_harness', tasks)
+        def chunked(p, ch, size, mode):
+            out = []
+            for k in range(0, len(ch), size):
+                part = ch[k:k + size]
+                out.append((p[0], p[1], p[2], p[3], None,
+                            ('expand', part) if mode == 'expand' else part, collect))
+            return out
+        tasks1 = []
+        for p, r in zip(plans, res):
+            if p[4] and not isinstance(r, Crash):
+                tasks1 += chunked(p, r.get('children', []), 6, 'expand')
+        res1 = pool.map('c11', 'explore_harness', tasks1)
+        tasks2 = []
+        for t, r in zip(tasks1, res1):
+            if not isinstance(r, Crash):
+                tasks2 += chunked(t, r.get('children', []), 60, 'full')
+        tasks += tasks1
+        res += res1
+        res2 = pool.map('c11', 'explore_harness', tasks2)
         agg = {}
-        for plan, r in zip(plans, res):
+        for plan, r in list(zip(tasks, res)) + list(zip(tasks2, res2)):
             label = '%s/%s||%s/bound%d' % (plan[0], plan[1], '+'.join(plan[2]), plan[3])
             if isinstance(r, Crash):
                 ctx.violation(dict(sig='C11:schedule:interpreter-crash', impl=impl, crash=True,
                                    case=dict(kind='crash', flavour=plan[0], mutator=plan[1],
                                              entries=plan[2], schedule=[]),
-                                   detail=dict(harness=label, shard=plan[5], returncode=r.returncode,
+                                   detail=dict(harness=label, returncode=r.returncode,
                                                stderr=r.stderr_tail[-1500:])))
                 continue
             nsched += r['schedules']
-            a = agg.setdefault(label, dict(schedules=0, max_points=0, outcomes={}, shards=0))
+            a = agg.setdefault(label, dict(schedules=0, max_points=0, outcomes={}, tasks=0))
             a['schedules'] += r['schedules']
-            a['shards'] += 1
+            a['tasks'] += 1
+            a['secs'] = round(a.get('secs', 0) + r.get('secs', 0), 1)
+            a['max_task_secs'] = max(a.get('max_task_secs', 0), r.get('secs', 0))
             a['max_points'] = max(a['max_points'], r['maxpoints'])
             for o, c in r['outcomes'].items():
                 outcomes[o] = outcomes.get(o, 0) + c
